@@ -711,6 +711,20 @@ def doqWriteMsg {β ν δ : Type} (lib : Lib β ν δ) (m : Msg ν) (heap : Heap
   | .ok b => some (be16 b.length ++ b)
   | _ => none
 
+/-! ### DNS-over-HTTPS (server.ServeHTTP → doh.HandleWireFormat) -/
+
+/-- what the HTTP client receives: status and body. The reply goes through the
+chain's base writer onto a mock "doh" writer that never declared
+`AllowDirectPack` (`writeMsg … false false`), which keeps the message; the
+handler then packs it with the library: 200 + the bytes, or 500. -/
+def dohResponse {β ν δ : Type} (lib : Lib β ν δ) (m : Msg ν) (heap : Heap β) (st : PState β δ) : Nat × Bytes :=
+  match (writeMsg lib m heap st false false).events with
+  | [.writeMsg] =>
+    (match (libPack lib m heap).1 with
+      | .ok b => (200, b)
+      | _ => (500, []))
+  | _ => (500, [])   -- a raw write would hand the mock writer bytes it re-decodes: not this transport's path
+
 /-! ### the pool -/
 
 /-- pooled states are clean: nothing of a message left, dictionary absent or empty. -/
